@@ -9,7 +9,9 @@
 //!   c02r exec                     read case lines, print `tag \t input \t coq-rcase`
 //!
 //! flags (bits): 1 top-level Gemm (else MatMul); 2 then-branch Gemm; 4 else-branch Gemm; 8 Loop;
-//! 16 Loop scan output; 32 Conv path; 64 the Loop body contains an If capturing the outer `cond`.
+//! 16 Loop scan output; 32 Conv path; 64 the Loop body contains an If capturing the outer `cond`;
+//! 128 fan-out model instead: v (= x, or MatMul(x, W0) with flag 256) is consumed by `Add(v, v)` and
+//! then by a chain of `trip` further `Add(prev, v)` operators and a final `Mul(prev, v)`.
 use rten::{Model, ModelOptions, RunOptions, ThreadPool, Value, ValueOrView};
 use rten_tensor::prelude::*;
 use rten_tensor::Tensor;
@@ -181,7 +183,40 @@ fn conv_graph(gname: &str, w: &Mat) -> Pb {
         .msg(12, value_info("out"))
 }
 
+fn build_fan(d: &Desc, w: &Weights) -> (Vec<u8>, Vec<&'static str>) {
+    let mut g = Pb::default();
+    let v = if d.flags & 256 != 0 {
+        g = g.msg(1, node("MatMul", "top", &["x", "w0"], &["v"], vec![]));
+        "v"
+    } else {
+        "x"
+    };
+    g = g.msg(1, node("Add", "add0", &[v, v], &["a0"], vec![]));
+    let mut prev = "a0".to_string();
+    for j in 1..=d.trip.max(0) {
+        let name = format!("a{}", j);
+        g = g.msg(1, node("Add", &format!("add{}", j), &[&prev, v], &[&name], vec![]));
+        prev = name;
+    }
+    g = g.msg(1, node("Mul", "last", &[&prev, v], &["z"], vec![]));
+    g = g.string(2, "c02r_fan");
+    if d.flags & 256 != 0 {
+        g = g.msg(5, init("w0", &w.w0));
+    }
+    g = g.msg(11, value_info("x")).msg(11, value_info("cond")).msg(12, value_info("z"));
+    (model_bytes(g), vec!["z"])
+}
+
+fn reference_fan(d: &Desc, w: &Weights) -> Vec<Mat> {
+    let v = if d.flags & 256 != 0 { matmul(&w.x, &w.w0, None) } else { w.x.clone() };
+    let k = 2 + d.trip.max(0) as i64; // a_trip = (2 + trip) * v
+    (vec![(v.0.clone(), v.1.iter().map(|x| k * x * x).collect())]).into_iter().collect()
+}
+
 fn build(d: &Desc, w: &Weights) -> (Vec<u8>, Vec<&'static str>) {
+    if d.flags & 128 != 0 {
+        return build_fan(d, w);
+    }
     let f = d.flags;
     let mut g = Pb::default();
     let mut outs: Vec<&'static str> = vec![];
@@ -305,6 +340,9 @@ fn conv(x: &Mat, w: &Mat) -> Mat {
 }
 
 fn reference(d: &Desc, w: &Weights) -> Vec<Mat> {
+    if d.flags & 128 != 0 {
+        return reference_fan(d, w);
+    }
     let f = d.flags;
     let h0 = matmul(&w.x, &w.w0, if f & 1 != 0 { Some(&w.b0) } else { None });
     let y1 = if d.cond != 0 {
@@ -401,10 +439,10 @@ fn run_once(model: &Model, d: &Desc, w: &Weights, outs: &[&str], owned: bool, th
         let id = |name: &str| model.node_id(name).map_err(|_| ());
         inputs.push((id("x")?, vf32(&x, owned)));
         inputs.push((id("cond")?, vi32(&cond, owned)));
-        if d.flags & 8 != 0 {
+        if d.flags & 8 != 0 && d.flags & 128 == 0 {
             inputs.push((id("trip")?, vi32(&trip, owned)));
         }
-        if d.flags & 32 != 0 {
+        if d.flags & 32 != 0 && d.flags & 128 == 0 {
             inputs.push((id("x4")?, vf32(&x4, owned)));
         }
         let out_ids: Vec<rten::NodeId> = outs.iter().map(|o| model.node_id(o).map_err(|_| ())).collect::<Result<_, _>>()?;
@@ -485,6 +523,9 @@ fn exec_line(line: &str) -> String {
     }
     let term = format!("{{| rr_ref := {}; rr_runs := {} |}}", reference.coq(), coq_cons(&runs));
     let f = d.flags;
+    if f & 128 != 0 {
+        return format!("real-fan{}{}\t{}\t{}", d.trip + 3, if f & 256 != 0 { "-interm" } else { "" }, line, term);
+    }
     let tag = format!(
         "real-{}{}{}{}",
         if f & 8 != 0 { "loop" } else { "if" },
@@ -501,6 +542,11 @@ fn timeout_line(line: &str) -> String {
 
 fn generate(seed: u64, n: usize, _tier: &str, out: &mut dyn Write) {
     let mut rng = SplitMix64(seed ^ 0x02B);
+    // fan-out models: uses of v = trip + 3 (Add(v,v) counts twice): 255, 256, 257, ~300
+    for (k, uses) in [255, 256, 257, 300].iter().enumerate() {
+        let interm = (k as u64 + seed) % 2 == 0;
+        writeln!(out, "R 3,2,3,1|{}|0|{}|{}", rng.below(1_000_000), uses - 3, 128 + if interm { 256 } else { 0 }).unwrap();
+    }
     for i in 0..n {
         let m = if i % 6 == 5 { 1 } else { 2 + rng.below(4) as usize };
         let k = 1 + rng.below(6) as usize;
